@@ -39,7 +39,7 @@ theorem sumTo_eq_zero {n : Nat} {f : Nat → Rat} (h : ∀ i, i < n → f i = 0)
   have : sumTo n f = sumTo n (fun _ => 0) := sumTo_congr h
   rw [this, sumTo_zero]
 
-theorem sumTo_indicator_unique (m : Nat) (P : Nat → Prop) (j0 : Nat) (hj0 : j0 < m) (h0 : P j0)
+theorem sumTo_indicator_unique (m : Nat) (P : Nat → Prop) [DecidablePred P] (j0 : Nat) (hj0 : j0 < m) (h0 : P j0)
     (hu : ∀ j, j < m → P j → j = j0) :
     sumTo m (fun j => if P j then (1 : Rat) else 0) = 1 := by
   have : sumTo m (fun j => if P j then (1 : Rat) else 0) =
@@ -52,7 +52,7 @@ theorem sumTo_indicator_unique (m : Nat) (P : Nat → Prop) (j0 : Nat) (hj0 : j0
       rw [if_neg hp, if_neg this]
   rw [this, sumTo_ite, if_pos hj0]
 
-theorem sumTo_indicator_none (m : Nat) (P : Nat → Prop) (h : ∀ j, j < m → ¬ P j) :
+theorem sumTo_indicator_none (m : Nat) (P : Nat → Prop) [DecidablePred P] (h : ∀ j, j < m → ¬ P j) :
     sumTo m (fun j => if P j then (1 : Rat) else 0) = 0 := by
   have : sumTo m (fun j => if P j then (1 : Rat) else 0) = sumTo m (fun _ => 0) := by
     apply sumTo_congr
